@@ -10,7 +10,7 @@
 const char *const dsim_property = "C11";
 namespace {
 enum { STOP_CALLED = 0, STOP_RETURNED = 1, NJOBS = 2, STOPPER_DONE = 3,
-       RAN = 100, CANCELLED = 200, ON_WORKER = 300, KIND = 400, SUBMITTED = 500, FIN = 600 /* waiter side finished */, TOKEN_GONE = 700 };
+       RAN = 100, CANCELLED = 200, ON_WORKER = 300, KIND = 400, SUBMITTED = 500, FIN = 600 /* waiter side finished */, TOKEN_GONE = 700, HOP_RAN = 800, HOP_CANC = 900 };
 constexpr int MAXJ = 24;
 
 void ran(cocls::thread_pool &pool, int j) {
@@ -29,7 +29,19 @@ void cancelled(int j) {
 
 // kind 0: coroutine transfers itself with co_await pool
 cocls::async<void> k0(cocls::thread_pool &pool, int j) {
-    try { co_await pool; ran(pool, j); } catch (const cocls::await_canceled_exception &) { cancelled(j); if (!pool.is_stopped()) dsim::fail("C11.cancelled_by_running_pool", "job %d was cancelled but the pool does not report that it is stopped", j); }
+    try { co_await pool; ran(pool, j); } catch (const cocls::await_canceled_exception &) { cancelled(j); if (!pool.is_stopped()) dsim::fail("C11.cancelled_by_running_pool", "job %d was cancelled but the pool does not report that it is stopped", j); co_return; }
+    if (!(j & 1)) co_return;
+    // odd jobs hand themselves in a second time, through the thread-local "current pool": again run once on a worker or cancelled once
+    bool stopped_before = cocls::thread_pool::current::is_stopped(); (void)cocls::thread_pool::current::any_enqueued();
+    try {
+        co_await cocls::thread_pool::current();
+        if (dsim::cell_add(HOP_RAN + j, 1) != 1) dsim::fail("C11.ran_twice", "job %d continued %ld times after co_await current()", j, dsim::cell_get(HOP_RAN + j));
+        if (!is_current(pool) && !pool.is_stopped()) dsim::fail("C11.not_on_worker", "job %d continues after co_await current() on a thread that is not a worker although the pool runs", j);
+    } catch (const cocls::await_canceled_exception &) {
+        if (dsim::cell_add(HOP_CANC + j, 1) != 1) dsim::fail("C11.cancelled_twice", "second hop of job %d cancelled twice", j);
+        if (!pool.is_stopped()) dsim::fail("C11.cancelled_by_running_pool", "second hop of job %d was cancelled but the pool does not report that it is stopped", j);
+    }
+    (void)stopped_before;
 }
 // kind 1: co_await pool(awaitable): resumed in the pool when the awaited future resolves
 cocls::async<void> k1(cocls::thread_pool &pool, cocls::future<long> &f, int j) {
@@ -161,6 +173,7 @@ static void judge() {
                 catch (const cocls::await_canceled_exception &) { if (!r) c = 1; }
             }
         }
+        if (kind == 0 && (j & 1) && r == 1 && dsim::cell_get(HOP_RAN + j) + dsim::cell_get(HOP_CANC + j) != 1) dsim::fail("C11.job_forgotten", "job %d handed itself in again with co_await current(): continued %ld times, cancelled %ld times", j, dsim::cell_get(HOP_RAN + j), dsim::cell_get(HOP_CANC + j));
         if (r + c == 1) continue;
         if (r + c > 1) dsim::fail("C11.ran_and_cancelled", "job %d (kind %ld): ran %ld, cancelled %ld", j, kind, r, c);
         if (!bare_kind) dsim::fail("C11.job_forgotten", "job %d (kind %ld) neither ran nor was cancelled", j, kind);
